@@ -66,10 +66,9 @@ def main(tier, seed):
     if tier == "quick":
         cases = []
         # every program under two option sets, rotating through all six
-        for i, (name, p) in enumerate(progs):
-            vs = [vn_all[i % 6], vn_all[(i + 3) % 6]]
-            cases += pipeline.compile_cases([(name, p)], vs) if False else []
-        jobs = [((name, p), [vn_all[i % 6], vn_all[(i + 3) % 6]]) for i, (name, p) in enumerate(progs)]
+        nv = len(vn_all)
+        jobs = [((name, p), vn_all if name.startswith(("idiom/", "corpus/")) else [vn_all[i % nv], vn_all[(i + 3) % nv]])
+                for i, (name, p) in enumerate(progs)]
         cases = compile_rot(jobs)
     else:
         cases = pipeline.compile_cases(progs, vn_all)
